@@ -1,3 +1,37 @@
-From Coq Require Import List. Require Import M_Write.
-Theorem placeholder_C05 : True. Proof. exact I. Qed.
-Print Assumptions placeholder_C05.
+(* C05 - parse -> write_nodeset -> parse reproduces the graph.
+   Full statement: for g = parse_files [] docs in the domain,  parse_files [] (base :: map (write_doc g) (non-base URIs))
+   equals g at URI level (namespaces, node rows on the listed columns, reference triples, models).
+   C05_roundtrip_partial: the composition theorem is NOT proved.  Proved are its ingredients, each for all inputs:
+   identifier text round trip (C09), index translation through a document's own namespace table (C03), merging of
+   references declared in several written documents (C02), value round trips (C08, per type), and the shape of the
+   written header.  The composition is decided by the correspondence runs of the parser and writer models and by the
+   literal round trip through the public API (oracle) on every generated graph. *)
+From Coq Require Import String Ascii List Bool Arith NArith ZArith.
+Require Import PyStr PyInt Sexp Xml M_C09 T_C09 M_C08 T_C08 Ns Table M_Parse T_Parse M_Write T_Write.
+Import ListNotations.
+Open Scope char_scope.
+
+Theorem C05_identifier_text : forall n, valid n = true -> parse_nodeid (print_nodeid n) [] [] = Ok n.
+Proof. exact roundtrip. Qed.
+Theorem C05_index_translation : forall ns d u k uri later, d_uris d = Some u -> nth_error u k = Some uri ->
+  exists j, zlookup (Z.of_nat (S k)) (zmap_of (snd (file_ns ns d))) = Some (Z.of_nat j) /\ nth_error (fst (file_ns ns d) ++ later) j = Some uri.
+Proof. exact C03_identifier_index. Qed.
+Theorem C05_shared_references_merge : forall E caller docs p, parse_files E caller docs = Ok p -> NoDup (p_refs p).
+Proof. exact C02_no_duplicates. Qed.
+Theorem C05_string_values : forall E b s, has CR s = false ->
+  decode_text E (negb b) (encode b (VString (Some s))) = Ok (VString (canon_text (Some s))).
+Proof. exact roundtrip_string. Qed.
+Theorem C05_integer_values : forall E b k z, (ikind_unsigned k = true -> (0 <= z)%Z) ->
+  decode_text E (negb b) (encode b (VInt k (Some z))) = Ok (VInt k (Some z)).
+Proof. exact roundtrip_int. Qed.
+Theorem C05_written_header : forall p w d, write_doc p w = Ok d ->
+  exists u1 rest, d_uris d = Some (u1 :: rest) /\
+  (exists attrs req, d_models d = Some [{| me_attrs := (lit "ModelUri", u1) :: attrs; me_required := req |}]) /\ d_aliases d = Some [].
+Proof. exact write_doc_header. Qed.
+
+Print Assumptions C05_identifier_text.
+Print Assumptions C05_index_translation.
+Print Assumptions C05_shared_references_merge.
+Print Assumptions C05_string_values.
+Print Assumptions C05_integer_values.
+Print Assumptions C05_written_header.
